@@ -203,6 +203,7 @@ class Interp:
         # tables of the class metadata that are derived from another of its tables in one comprehension
         # (`self.T = {k: EXPR(k, v) for k, v in base.items()}`): a lookup T.get(K) is EXPR at (K, BASE.get(K)), None when BASE has no K
         self.derived_tables = _derived_tables(self.mod)
+        self.missing_tables = _missing_tables(self.mod)
         self.append_only = set()
         if self.replay_logs:
             uses = {}
@@ -1008,6 +1009,12 @@ class _EvalBuilder(_Builder):
             i._assign(n.target, v, n, quiet=True)
             return i.lookup(n.target.id) or v
         s = super().ev(n)
+        if s[0] == "sub" and i.missing_tables and s[1][0] == "a" and s[1][2] in i.missing_tables and isinstance(n, ast.Subscript) and isinstance(n.ctx, ast.Load) and not self.pure:
+            pname, expr = i.missing_tables[s[1][2]]
+            fallback = from_ast(expr, lambda nm: s[2] if nm == pname else None)
+            if fallback[0] == "call":
+                i.events.append(Event("call", fallback, getattr(n, "lineno", i.cur_line), i.depth, tuple(i.loops)))
+            s = i._rewrite(("op", "or", ("call", A(s[1], "get"), (s[2],), ()), i._rewrite(fallback)))
         if s[0] in ("n", "a", "sub", "item"):
             s = i._rewrite(s)
         if s[0] == "a" and s[2] in ("format", "size") and s[1][0] == "call" and dotted(s[1][1]) in ("struct.Struct", "Struct") and len(s[1][2]) == 1 \
@@ -1413,6 +1420,44 @@ def _derived_tables(mod) -> Dict[str, Any]:
                     out[st.targets[0].attr] = (local_attr[it.func.value.id], g.target.elts[0].id, g.target.elts[1].id, st.value.value, dict(local_attr))
     _DERIVED_CACHE.clear()
     _DERIVED_CACHE[key] = out
+    return out
+
+
+_MISSING_CACHE: Dict[int, Dict[str, Any]] = {}
+
+
+def _missing_tables(mod) -> Dict[str, Any]:
+    """attributes of the class metadata that hold an instance of a dict subclass with `__missing__(self, key): return EXPR`:
+    T[K] is then `T.get(K) or EXPR(K)` (the stored values - field names - are never empty)"""
+    key = id(mod)
+    if key in _MISSING_CACHE:
+        return _MISSING_CACHE[key]
+    out: Dict[str, Any] = {}
+    classes: Dict[str, Any] = {}
+    for q, nodes in mod.defs.items():
+        if q.endswith(".__missing__") and q.count(".") == 1 and isinstance(nodes[0], ast.FunctionDef):
+            f = nodes[0]
+            body = [b for b in f.body if not (isinstance(b, ast.Expr) and isinstance(b.value, ast.Constant))]
+            if len(body) == 1 and isinstance(body[0], ast.Return) and body[0].value is not None and len(f.args.args) == 2:
+                classes[q.split(".")[0]] = (f.args.args[1].arg, body[0].value)
+    nodes = mod.defs.get("ProtoClassMetadata.__init__")
+    if classes and nodes and isinstance(nodes[0], ast.FunctionDef):
+        init = nodes[0]
+        made: Dict[str, str] = {}
+        for st in ast.walk(init):
+            if isinstance(st, (ast.Assign, ast.AnnAssign)) and getattr(st, "value", None) is not None and isinstance(st.value, ast.Call) and isinstance(st.value.func, ast.Name) \
+                    and st.value.func.id in classes:
+                tg = st.targets[0] if isinstance(st, ast.Assign) else st.target
+                if isinstance(tg, ast.Name):
+                    made[tg.id] = st.value.func.id
+                elif isinstance(tg, ast.Attribute) and isinstance(tg.value, ast.Name) and tg.value.id == "self":
+                    out[tg.attr] = classes[st.value.func.id]
+        for st in ast.walk(init):
+            if isinstance(st, ast.Assign) and len(st.targets) == 1 and isinstance(st.targets[0], ast.Attribute) and isinstance(st.targets[0].value, ast.Name) \
+                    and st.targets[0].value.id == "self" and isinstance(st.value, ast.Name) and st.value.id in made:
+                out[st.targets[0].attr] = classes[made[st.value.id]]
+    _MISSING_CACHE.clear()
+    _MISSING_CACHE[key] = out
     return out
 
 
